@@ -104,3 +104,30 @@ func TestContainerFirstIfdOffsetCR3(t *testing.T) {
 		t.Fatalf("CR3: err=%v software=%q model=%q (TIFF: %q, %q)", err, e2.Software, e2.Model, e1.Software, e1.Model)
 	}
 }
+
+// cCR3With places extra boxes between CNCV and CMT1 inside Canon's metadata box.
+func cCR3With(cmt1 []byte, extra ...[]byte) []byte {
+	uuid := []byte{0x85, 0xc0, 0xb6, 0x87, 0x82, 0x0f, 0x11, 0xe0, 0x81, 0x11, 0xf4, 0xce, 0x46, 0x2b, 0x6a, 0x48}
+	u := append([]byte{}, uuid...)
+	u = append(u, cBox("CNCV", []byte("CanonCR3_001/00.09.00/00.00.00"))...)
+	for _, e := range extra {
+		u = append(u, e...)
+	}
+	u = append(u, cBox("CMT1", cmt1)...)
+	out := cBox("ftyp", []byte("crx \x00\x00\x00\x01crx isom"))
+	out = append(out, cBox("moov", cBox("uuid", u))...)
+	out = append(out, cBox("mdat", make([]byte, 256))...)
+	return out
+}
+
+// TestContainerShortSiblingBoxCR3 (C06): a sibling box of the CMT boxes that is shorter than its handler assumes
+// (a 2-byte CTBO) is container content; the payload in CMT1 must decode as from the bare TIFF.
+func TestContainerShortSiblingBoxCR3(t *testing.T) {
+	payload := cStream(8, []cEnt{cASCII(0x010f, "Canon"), cASCII(0x0110, "Canon EOS R6"), cASCII(0x0131, "SoftwareName 1.0")})
+	for _, sib := range [][]byte{cBox("CTBO", []byte{0, 0}), cBox("CTBO", nil)} {
+		e, err := imagemeta.DecodeCR3(bytes.NewReader(cCR3With(payload, sib)))
+		if err != nil || e.Software != "SoftwareName 1.0" {
+			t.Errorf("CR3 with a %d-byte CTBO box: err=%v software=%q", len(sib)-8, err, e.Software)
+		}
+	}
+}
